@@ -70,6 +70,33 @@ NeighbourDistanceOf(c, ws) ==
             /\ (i > 1 => ws[i][1] >= c.ests[i-1] + SepDist(c, i-1))
             /\ (i < NEst(c) => ws[i][2] <= c.ests[i+1] - SepDist(c, i))
 
+(* ---- hardening round: the points a window holds, and the point-count guard ----          *)
+(* The data grid of a configuration is lo, lo + step, ..., <= hi (field `step`).  A window    *)
+(* is the half-open interval [w1, w2); its recorded edges are rounded to integer units, so   *)
+(* a data point exactly on a recorded edge may or may not belong to it: a window certainly   *)
+(* holds the NPointsMin points strictly inside and at most the NPointsMax points of the      *)
+(* closed interval.                                                                         *)
+GridPoints(c) == {c.lo + k * c.step : k \in 0..((c.hi - c.lo) \div c.step)}
+NPointsMin(c, w) == Cardinality({x \in GridPoints(c) : w[1] < x /\ x < w[2]})
+NPointsMax(c, w) == Cardinality({x \in GridPoints(c) : w[1] <= x /\ x <= w[2]})
+NPointsHalfOpen(c, w) == Cardinality({x \in GridPoints(c) : w[1] <= x /\ x < w[2]})
+
+(* "a window with too few points yields a 'window too narrow' result": decided by the       *)
+(* number of points against the number of parameters k, never by the width of the window,   *)
+(* the magnitude of its coordinates or their element type.  With exactly k points (no       *)
+(* degree of freedom) either outcome is accepted (DESIGN 3.4).                              *)
+NarrowVerdict(nmin, nmax, k, assess) ==
+    IF nmax < k /\ assess # "window_too_narrow" THEN "too_few_points_but_not_window_too_narrow"
+    ELSE IF nmin > k /\ assess = "window_too_narrow" THEN "window_too_narrow_with_enough_points"
+    ELSE "ok"
+
+(* Variants of one and the same configuration (element types of the coordinate, the         *)
+(* estimates and the width; memory layout of the data): none changes a value, none may      *)
+(* change the outcome.                                                                      *)
+CoordTypes == {"float64", "float32", "int64"}
+DataLayouts == {"contiguous", "strided", "row"}
+WindowVariants == [xd : CoordTypes, ed : CoordTypes, wd : CoordTypes, layout : DataLayouts]
+
 -----------------------------------------------------------------------------
 (* Part 2 - the model-selection loop of one peak.                                          *)
 (* NB backgrounds, NP peak models; attempt k (1-based) uses the combination                *)
